@@ -5,7 +5,7 @@
 package notation
 
 //@ global invariant reservedAnnotationPrefixes[0] == "io.cncf.notary"
-//@ global invariant errDoneVerification != nil
+//@ global invariant errDoneVerification != nil && errorsNewValue(errDoneVerification)
 
 // ---- C11: signing signs exactly what was resolved and writes nothing it was handed ----
 
@@ -56,3 +56,47 @@ package notation
 //@ at call (Signer).Sign: assert[C11.resolved] resolveErr(repo, artifactRef) == nil && artifactManifestDesc == resolved(repo, artifactRef)
 //@ at call (Repository).PushSignature: assert[C11.push-args] arg1 == signOpts.SignatureMediaType && arg2 == sig && arg3 == resolved(repo, artifactRef) && arg4 == annotations && has(annotations, "io.cncf.notary.x509chain.thumbprint#S256") && has(annotations, "org.opencontainers.image.created")
 //@ ensures-local[C11.returns-resolved] result2 == nil ==> result == resolved(repo, artifactRef)
+
+// ---- C10: registry verification stops at the first good signature, within the limit ----
+
+// ghost constants: the values of the environment's call counters when the listing starts (fixed by the `assume` at
+// the ListSignatures call below, which is their only constraint)
+//@ ghost func fetchBase(r registry.Repository) int
+//@ ghost func fetchFailBase(r registry.Repository) int
+//@ ghost func verifyBase(v Verifier) int
+
+//@ func Verify
+//@ props C10 C12
+//@ ensures[C10.limit] fetchCount(repo) - old(fetchCount(repo)) <= max(verifyOpts.MaxSignatureAttempts, 0) && verifyCount(verifier) - old(verifyCount(verifier)) <= fetchCount(repo) - old(fetchCount(repo))
+//@ ensures[C10.once] resolveCount(repo) <= old(resolveCount(repo)) + 1 && listCount(repo) <= old(listCount(repo)) + 1
+//@ ensures[C10.bad-args] verifier == nil || repo == nil || verifyOpts.MaxSignatureAttempts <= 0 ==> result2 != nil && resolveCount(repo) == old(resolveCount(repo)) && listCount(repo) == old(listCount(repo)) && fetchCount(repo) == old(fetchCount(repo))
+//@ ensures[C10.skip] verifier != nil && repo != nil && verifyOpts.MaxSignatureAttempts > 0 && typeis(verifier, verifySkipper) && (skipErr(verifier, verifyOpts.ArtifactReference) != nil || skipAns(verifier, verifyOpts.ArtifactReference)) ==> resolveCount(repo) == old(resolveCount(repo)) && listCount(repo) == old(listCount(repo)) && fetchCount(repo) == old(fetchCount(repo)) && verifyCount(verifier) == old(verifyCount(verifier)) && (result2 == nil) == (skipErr(verifier, verifyOpts.ArtifactReference) == nil)
+//@ ensures[C10.reference] result2 == nil && resolveCount(repo) != old(resolveCount(repo)) ==> refParseErr(verifyOpts.ArtifactReference) == nil && refReference(verifyOpts.ArtifactReference) != "" && resolveErr(repo, refReference(verifyOpts.ArtifactReference)) == nil && result == resolved(repo, refReference(verifyOpts.ArtifactReference))
+//@ ensures-local[C10.digest-pinned] result2 == nil && resolveCount(repo) != old(resolveCount(repo)) ==> (refIsDigest(ref) ==> ref.Reference == string(result.Digest))
+//@ ensures[C10.success] result2 == nil && resolveCount(repo) != old(resolveCount(repo)) ==> len(result1) == 1 && verifiedFor(result1[0], verifier, result) && fetchCount(repo) > old(fetchCount(repo))
+//@ ensures[C10.unfetchable] fetchFails(repo) != old(fetchFails(repo)) ==> result2 != nil
+//@ ensures[C10.no-silent-skip] result2 == nil && resolveCount(repo) == old(resolveCount(repo)) ==> typeis(verifier, verifySkipper) && skipAns(verifier, verifyOpts.ArtifactReference)
+//@ at call (Repository).ListSignatures: assume fetchBase(repo) == fetchCount(repo) && fetchFailBase(repo) == fetchFails(repo) && verifyBase(verifier) == verifyCount(verifier)
+//@ at call (Repository).ListSignatures: assert[C10.list-resolved] arg1 == artifactDescriptor
+//@ at call (Repository).ListSignatures: assert[C10.list-resolved] fetchCount(repo) == old(fetchCount(repo)) && fetchFails(repo) == old(fetchFails(repo))
+//@ at call (Repository).ListSignatures: assert[C10.list-resolved] verifyCount(verifier) == old(verifyCount(verifier))
+//@ callback 1 invariant logger != nil && repo != nil && verifier != nil
+//@ callback 1 invariant numOfSignatureProcessed >= 0 && numOfSignatureProcessed <= verifyOpts.MaxSignatureAttempts
+//@ callback 1 invariant fetchCount(repo) == fetchBase(repo) + numOfSignatureProcessed
+//@ callback 1 invariant verifyCount(verifier) <= verifyBase(verifier) + numOfSignatureProcessed && verifyCount(verifier) >= verifyBase(verifier)
+//@ callback 1 invariant fetchFails(repo) != fetchFailBase(repo) ==> cb_err != nil && !errIs(cb_err, errDoneVerification)
+//@ callback 1 invariant verificationSucceeded ==> cb_err != nil
+//@ callback 1 invariant verificationSucceeded ==> len(verificationOutcomes) == 1 && verifiedFor(verificationOutcomes[0], verifier, artifactDescriptor)
+//@ callback 1 invariant verificationSucceeded ==> fetchFails(repo) == fetchFailBase(repo) && numOfSignatureProcessed >= 1
+//@ callback 1 invariant len(verificationFailedErrorArray) >= 1 && verificationFailedErrorArray[0] != nil
+
+//@ func Verify$1
+//@ props C10
+//@ at call (Repository).FetchSignatureBlob: assert[C10.nothing-after-success] !verificationSucceeded && numOfSignatureProcessed <= verifyOpts.MaxSignatureAttempts
+//@ at call (Verifier).Verify: assert[C10.verify-resolved] arg1 == artifactDescriptor && arg2 == sigBlob && !verificationSucceeded
+//@ loop 1 invariant !verificationSucceeded
+//@ loop 1 invariant numOfSignatureProcessed >= 0 && numOfSignatureProcessed <= verifyOpts.MaxSignatureAttempts
+//@ loop 1 invariant fetchCount(repo) == fetchBase(repo) + numOfSignatureProcessed
+//@ loop 1 invariant verifyCount(verifier) <= verifyBase(verifier) + numOfSignatureProcessed && verifyCount(verifier) >= verifyBase(verifier)
+//@ loop 1 invariant fetchFails(repo) == fetchFailBase(repo)
+//@ loop 1 invariant len(verificationFailedErrorArray) >= 1 && verificationFailedErrorArray[0] != nil
